@@ -99,7 +99,7 @@ ECMark == "m"      \* 0x80
 ECOther == "x"     \* any other value
 ECBytes == {ECZero, ECMark, ECOther}
 
-ECRepeat(b, k) == [i \in 1..k |-> b]
+ECRepeat(b, k) == TLCEval([i \in 1..k |-> b])
 ECDrop(s, k) == SubSeq(s, k + 1, Len(s))      \* s[k..]
 ECTake(s, k) == SubSeq(s, 1, k)               \* s[..k]
 RECURSIVE ECChunks(_, _)
@@ -119,6 +119,7 @@ ECDataShards(p) ==
   IN ECChunks(ECTake(p, ECBoundary(L)), ECShardSize(L)) \o ECChunks(last, ECShardSize(L))
 
 (* padding removal of ReedSolomonCoder::deshred on the re-joined buffer *)
+\* iter().rev().take_while(|b| b == 0).count()
 RECURSIVE ECTrailingZerosFrom(_, _)
 ECTrailingZerosFrom(b, k) == IF k = 0 \/ b[k] # ECZero THEN 0 ELSE 1 + ECTrailingZerosFrom(b, k - 1)
 ECTrailingZeros(b) == ECTrailingZerosFrom(b, Len(b))
@@ -157,15 +158,14 @@ ECShredOf(w, i) == [w |-> w, i |-> i, none |-> FALSE]
 ECSizeOf(cw, s) == ECShardSize(cw[s.w].len)
 ECKindOf(cw, s) == ECKindAt(cw[s.w].pv, s.i)
 
-ECLeaderArray(w) == [i \in ECPositions |-> ECShredOf(w, i)]
-ECRestrict(arr, H) == [i \in ECPositions |-> IF i \in H THEN arr[i] ELSE ECNoShred]
+ECLeaderArray(w) == TLCEval([i \in ECPositions |-> ECShredOf(w, i)])
+ECRestrict(arr, H) == TLCEval([i \in ECPositions |-> IF i \in H THEN arr[i] ELSE ECNoShred])
 ECHeld(arr) == {i \in ECPositions : ~arr[i].none}
 ECMin(S) == CHOOSE x \in S : \A y \in S : x <= y
-ECFirst(arr) == arr[ECMin(ECHeld(arr))]            \* ValidatedShreds::any_shred
 
-(* ValidatedShreds::try_new *)
-ECLayoutOK(v, cw, arr) ==
-  LET H == ECHeld(arr)  sz == ECSizeOf(cw, ECFirst(arr)) IN
+(* ValidatedShreds::try_new; H: held positions, first: any_shred *)
+ECLayoutOK(v, cw, arr, H, first) ==
+  LET sz == ECSizeOf(cw, first) IN
   /\ sz # 0 /\ sz % 2 = 0
   /\ \A i \in H : ECSizeOf(cw, arr[i]) = sz
   /\ \A i \in H : ECKindOf(cw, arr[i]) = ECKindAt(v, i)
@@ -174,12 +174,11 @@ ECLayoutOK(v, cw, arr) ==
 (* recovery shard i - ECNumData(v) of a code with ECNumCoding(v) recovery  *)
 (* shards; it is that shard of codeword w only if it was produced for w by *)
 (* a variant with the same split.                                          *)
-ECConsistentWith(v, cw, arr, w) ==
-  {i \in ECHeld(arr) : arr[i].w = w /\ ECNumData(cw[w].pv) = ECNumData(v)}
-ECDecode(v, cw, arr) ==
-  LET H == ECHeld(arr) IN
-  IF ECConsistentWith(v, cw, arr, ECFirst(arr).w) = H THEN "codeword"
-  ELSE IF \A w \in {arr[i].w : i \in H} : Cardinality(ECConsistentWith(v, cw, arr, w)) < ECData
+ECConsistentWith(v, cw, arr, H, w) ==
+  {i \in H : arr[i].w = w /\ ECNumData(cw[w].pv) = ECNumData(v)}
+ECDecode(v, cw, arr, H, first) ==
+  IF ECConsistentWith(v, cw, arr, H, first.w) = H THEN "codeword"
+  ELSE IF \A w \in {arr[i].w : i \in H} : Cardinality(ECConsistentWith(v, cw, arr, H, w)) < ECData
        THEN "garbage"        \* any ECData shards the decoder uses mix two codewords
   ELSE "unspecified"         \* which shards the decoder uses is its own business
 
@@ -189,16 +188,18 @@ ECErr(e, arr) == [ok |-> FALSE, err |-> e, slice |-> ECNoSlice, arr |-> arr]
 (* errors that blame the sender: BadEncoding, InvalidMerkleTree,           *)
 (* TooMuchData.                                                            *)
 ECDeshred(v, cw, arr) ==
-  IF ECHeld(arr) = {} THEN ECErr("NotEnoughShreds", arr)
-  ELSE IF ~ECLayoutOK(v, cw, arr) THEN ECErr("InvalidLayout", arr)
-  ELSE IF Cardinality(ECHeld(arr)) < ECData THEN ECErr("NotEnoughShreds", arr)
-  ELSE LET w == ECFirst(arr).w  dec == ECDecode(v, cw, arr) IN
+  LET H == ECHeld(arr) IN
+  IF H = {} THEN ECErr("NotEnoughShreds", arr)
+  ELSE LET first == arr[ECMin(H)] IN
+  IF ~ECLayoutOK(v, cw, arr, H, first) THEN ECErr("InvalidLayout", arr)
+  ELSE IF Cardinality(H) < ECData THEN ECErr("NotEnoughShreds", arr)
+  ELSE LET w == first.w  dec == ECDecode(v, cw, arr, H, first) IN
        IF dec = "unspecified" THEN ECErr("Unspecified", arr)
-       ELSE IF ECSizeOf(cw, ECFirst(arr)) * ECData > ECMaxPadded THEN ECErr("Undecodable", arr)
+       ELSE IF ECSizeOf(cw, first) * ECData > ECMaxPadded THEN ECErr("Undecodable", arr)
        ELSE IF dec = "garbage" THEN ECErr("Undecodable", arr)     \* padding / Merkle root mismatch
        ELSE IF cw[w].pv # v THEN ECErr("Undecodable", arr)        \* key material missing or misread
        ELSE [ok |-> TRUE, err |-> "-", slice |-> cw[w].slice,
-             arr |-> [i \in ECPositions |-> IF arr[i].none THEN ECShredOf(w, i) ELSE arr[i]]]
+             arr |-> TLCEval([i \in ECPositions |-> IF arr[i].none THEN ECShredOf(w, i) ELSE arr[i]])]
 
 ---------------------------------------------------------------------------
 (* C11, declaratively, as predicates over one call: the receiver's variant *)
